@@ -266,7 +266,7 @@ def r145b(db, ctx):
         why = 'pieces missing'
         if len(cw) == 1 and len(tr) == 1 and len(z) == 1:
             a = [norm(R.operand(x)) for x in cw[0][1]['args']]
-            src_ok = a[1][0] == 'agg' and isinstance(a[1][1], tuple) and a[1][1][1].endswith('RangeFrom') and m(('fld', ('p', 1), 'start'), a[1][2][0]) is not None and a[2] == ('k', 0)
+            src_ok = common.is_tail_range(a[1], lambda e: m(('fld', ('p', 1), 'start'), norm(e)) is not None, ('fld', ('p', 1), 'buffer')) and a[2] == ('k', 0)
             ta = norm(R.operand(tr[0][1]['args'][1]))
             l = X.lin(ta)
             keys = {k: v for k, v in l.items() if k != ''}
